@@ -22,10 +22,11 @@ run_demo() {
   echo $?
 }
 rc_clean=$(run_demo); tail -5 "$d/.demo_out" > "$d/.demo_clean_tail"
-if ! git -C "$wt" apply "$d/patch.diff"; then echo "patch does not apply" >> "$out"; git -C /repo worktree remove --force "$wt"; exit 2; fi
+pf=$d/patch.diff; [ -f "$d/patch_rebased.diff" ] && pf=$d/patch_rebased.diff
+if ! git -C "$wt" apply "$pf"; then echo "patch does not apply" >> "$out"; git -C /repo worktree remove --force "$wt"; exit 2; fi
 rc_mut=$(run_demo); tail -8 "$d/.demo_out" > "$d/.demo_mut_tail"
 rc_mut2=$(run_demo)
-git -C "$wt" checkout -q -- . ; rc_clean2=$(run_demo); git -C "$wt" apply "$d/patch.diff"
+git -C "$wt" checkout -q -- . ; rc_clean2=$(run_demo); git -C "$wt" apply "$pf"
 echo "repo_head=$(git -C /repo rev-parse --short HEAD)" >> "$out"
 echo "demo_clean_rc=$rc_clean demo_clean_rc_again=$rc_clean2 demo_mutant_rc=$rc_mut demo_mutant_rc_again=$rc_mut2" >> "$out"
 echo "--- demo on mutant (tail)" >> "$out"; cat "$d/.demo_mut_tail" >> "$out"
